@@ -34,6 +34,7 @@ func runC12(c *Ctx) {
 	c.rule("name-precedence", "mkname consults the source-specific tag before the dials tag", 2)
 	c.rule("flatten-flag-accumulates", "a flag given for a leaf that precedes an empty nested struct is not dropped when the flattened struct is rebuilt; shared with C10", 3)
 	c10FlattenFlag(c)
+	c15Narrowing(c) // (shared with C15) the parsers the flag helpers use never narrow a parsed number unbounded
 	c.rule("syntax-agree", "the text a flag advertises as its default (the helpers' String) can be read back by the helper's own parser: quoting, separators and signedness of integer formatting agree; shared with C15", 8)
 	c15Syntax(c)
 
